@@ -388,7 +388,23 @@ func vC11StrBounded(tag string) *SexpStr {
 func vh_C11_encode() {
 	env := vEnvs(1)[0]
 	var v Sexp
-	switch vChoice("shape", 9) {
+	switch vChoice("shape", 15) {
+	// the string with the symbolic rune at every position of an array and of a hash, and below a nested container
+	case 9:
+		v = &SexpArray{Val: []Sexp{&SexpInt{Val: 7}, vC11Str("r"), SexpNull}, Env: env}
+	case 10:
+		v = &SexpArray{Val: []Sexp{SexpNull, &SexpStr{S: "p"}, vC11Str("r")}, Env: env}
+	case 11:
+		v = &SexpArray{Val: []Sexp{&SexpArray{Val: []Sexp{&SexpInt{Val: 1}, vC11Str("r")}, Env: env}, &SexpArray{Val: []Sexp{vC11Str("r")}, Env: env}}, Env: env}
+	case 12:
+		h, _ := MakeHash([]Sexp{env.MakeSymbol("a"), &SexpInt{Val: 3}, env.MakeSymbol("b"), vC11Str("r")}, "hash", env)
+		v = h
+	case 13:
+		h, _ := MakeHash([]Sexp{env.MakeSymbol("a"), &SexpArray{Val: []Sexp{&SexpInt{Val: 1}, vC11Str("r")}, Env: env}}, "hash", env)
+		v = h
+	case 14:
+		inner, _ := MakeHash([]Sexp{env.MakeSymbol("x"), &SexpInt{Val: 1}, env.MakeSymbol("y"), vC11Str("r")}, "hash", env)
+		v = &SexpArray{Val: []Sexp{&SexpInt{Val: 0}, inner}, Env: env}
 	case 0:
 		v = vC11Str("r")
 	case 1:
